@@ -627,3 +627,97 @@ Example zsh_tooltip_dquote_closes_eval_level :
   final sh_step ZDQ (zsh_l1 [36; 96; 92]) = ZDQ /\
   events sh_step ZDQ (zsh_l1 [36; 96; 92]) = [Lit 36; Lit 96; Lit 92].
 Proof. vm_compute. repeat split. Qed.
+
+(** * the property's own wording: same token skeleton whatever the text.
+    For any script prefix [pre] that leaves the lexer inside the literal (state [st]) and any
+    suffix [post], replacing the escaped text of one slot by the escaped form of any other text
+    changes neither the skeleton nor the final state.  (Slot by slot this gives the statement for
+    every assignment of texts to all slots.) *)
+Section SameSkeleton.
+  Context {S : Type}.
+  Variable step : S -> N -> S * list ev.
+
+  Lemma word_transparent_erase st0 pre chunk payload post st :
+    final step st0 pre = st -> word_transparent step st chunk payload ->
+    skeleton (events step st0 (pre ++ chunk ++ post)) = skeleton (events step st0 (pre ++ post)) /\
+    final step st0 (pre ++ chunk ++ post) = final step st0 (pre ++ post).
+  Proof.
+    intros Hpre Hc. destruct (word_transparent_context step st chunk payload post Hc) as (F & Sk & _).
+    split.
+    - rewrite (events_app step st0 pre (chunk ++ post)), (events_app step st0 pre post).
+      rewrite !skeleton_app, Hpre. now rewrite Sk.
+    - rewrite (final_app step st0 pre (chunk ++ post)), (final_app step st0 pre post), Hpre. exact F.
+  Qed.
+
+  Lemma same_skeleton st0 st pre post c1 p1 c2 p2 :
+    final step st0 pre = st -> word_transparent step st c1 p1 -> word_transparent step st c2 p2 ->
+    skeleton (events step st0 (pre ++ c1 ++ post)) = skeleton (events step st0 (pre ++ c2 ++ post)) /\
+    final step st0 (pre ++ c1 ++ post) = final step st0 (pre ++ c2 ++ post).
+  Proof.
+    intros Hpre H1 H2.
+    destruct (word_transparent_erase st0 pre c1 p1 post st Hpre H1) as [A1 B1].
+    destruct (word_transparent_erase st0 pre c2 p2 post st Hpre H2) as [A2 B2].
+    split; congruence.
+  Qed.
+End SameSkeleton.
+
+Lemma same_skeleton_fish s1 s2 pre post : final fish_step FB pre = FSQ ->
+  skeleton (events fish_step FB (pre ++ fish_escape_help s1 ++ post)) =
+  skeleton (events fish_step FB (pre ++ fish_escape_help s2 ++ post)) /\
+  final fish_step FB (pre ++ fish_escape_help s1 ++ post) = final fish_step FB (pre ++ fish_escape_help s2 ++ post).
+Proof.
+  intros H. eapply same_skeleton; [exact H| |]; apply transparent_word, fish_sq_transparent.
+Qed.
+
+Lemma same_skeleton_fish_list s1 s2 pre post : final fish_step FB pre = FDQ ->
+  skeleton (events fish_step FB (pre ++ fish_possible_value_help s1 ++ post)) =
+  skeleton (events fish_step FB (pre ++ fish_possible_value_help s2 ++ post)) /\
+  final fish_step FB (pre ++ fish_possible_value_help s1 ++ post) =
+  final fish_step FB (pre ++ fish_possible_value_help s2 ++ post).
+Proof.
+  intros H. eapply same_skeleton; [exact H| |]; apply transparent_word, fish_dq_transparent.
+Qed.
+
+Lemma same_skeleton_zsh s1 s2 pre post : final sh_step ZB pre = ZSQ ->
+  skeleton (events sh_step ZB (pre ++ zsh_escape_help s1 ++ post)) =
+  skeleton (events sh_step ZB (pre ++ zsh_escape_help s2 ++ post)) /\
+  final sh_step ZB (pre ++ zsh_escape_help s1 ++ post) = final sh_step ZB (pre ++ zsh_escape_help s2 ++ post).
+Proof.
+  intros H. eapply same_skeleton; [exact H| |]; apply zsh_sq_word_transparent.
+Qed.
+
+Lemma same_skeleton_powershell s1 s2 pre post : final ps_step PB pre = PSQ ->
+  skeleton (events ps_step PB (pre ++ powershell_escape_help s1 ++ post)) =
+  skeleton (events ps_step PB (pre ++ powershell_escape_help s2 ++ post)) /\
+  final ps_step PB (pre ++ powershell_escape_help s1 ++ post) =
+  final ps_step PB (pre ++ powershell_escape_help s2 ++ post).
+Proof.
+  intros H. eapply same_skeleton; [exact H| |]; apply transparent_word, powershell_sq_transparent.
+Qed.
+
+Lemma same_skeleton_elvish s1 s2 pre post : final el_step EB pre = ESQ ->
+  skeleton (events el_step EB (pre ++ elvish_escape_help s1 ++ post)) =
+  skeleton (events el_step EB (pre ++ elvish_escape_help s2 ++ post)) /\
+  final el_step EB (pre ++ elvish_escape_help s1 ++ post) = final el_step EB (pre ++ elvish_escape_help s2 ++ post).
+Proof.
+  intros H. eapply same_skeleton; [exact H| |]; apply transparent_word, elvish_sq_transparent.
+Qed.
+
+Lemma same_skeleton_nushell s1 s2 pre post : final nu_step NB pre = NC ->
+  skeleton (events nu_step NB (pre ++ nushell_single_line s1 ++ post)) =
+  skeleton (events nu_step NB (pre ++ nushell_single_line s2 ++ post)) /\
+  final nu_step NB (pre ++ nushell_single_line s1 ++ post) = final nu_step NB (pre ++ nushell_single_line s2 ++ post).
+Proof.
+  intros H. eapply same_skeleton; [exact H| |]; apply transparent_word, nushell_comment_transparent.
+Qed.
+
+(** the hypotheses are satisfiable: prefixes taken from real generated lines *)
+(* prefixes: c -d QUOTE / -a DQUOTE v BACKSLASH t QUOTE / QUOTE -a [ / , QUOTE / cand -a QUOTE / two spaces, hash, space *)
+Example same_skeleton_hyps :
+  final fish_step FB [99; 32; 45; 100; 32; 39] = FSQ /\
+  final fish_step FB [45; 97; 32; 34; 118; 92; 116; 39] = FDQ /\
+  final sh_step ZB [39; 45; 97; 91] = ZSQ /\
+  final ps_step PB [44; 32; 39] = PSQ /\
+  final el_step EB [99; 97; 110; 100; 32; 45; 97; 32; 39] = ESQ /\
+  final nu_step NB [32; 32; 35; 32] = NC.
+Proof. vm_compute. repeat split. Qed.
